@@ -459,7 +459,7 @@ example : (run (gPinc "p") .dense [some 1, some 2] sPrior).2 = .ok [[(9, 9), (0,
 -- a sink under the replay key: nothing is recorded
 example : (run (gInc "in") .dense [some 1, some 2] sPrior).2 = .ok [[]] := by rfl
 -- the unreachable-on-the-current-tree branches of the sink are real: a dense buffer longer than the cycle throws
-example : pushDense [("out", .dense [some 1, some 2, some 3])] "out" 1 5 = .error .logic := by rfl
+example : pushDense [("out", .dense [some 1, some 2, some 3])] "out" 1 5 = .error .other := by rfl
 example : pushSparse [("out", .dense [some 1])] "out" 1 5 = .error .other := by rfl
 
 end HgVerif.GState
